@@ -181,16 +181,15 @@ def run(ctx):
     import gen_tables
     import gen_centring
     broken = []
-    try:
-        gen_tables.generate()
-        gen_centring.generate()
+    terr = common.regen(ctx, ("tables", "centring"))
+    if terr:
+        for t in THEOREMS:
+            ctx.obligations.append((t, False))
+        broken.append(("translator", terr))
+    else:
         ok, info = prove(ctx, "MatidProps.C12", THEOREMS)
         if not ok:
             broken.append(("proof", info))
-    except Exception as e:  # noqa
-        for t in THEOREMS:
-            ctx.obligations.append((t, False))
-        broken.append(("translator", {"error": repr(e)}))
     mism = []
     try:
         mism = correspondence(ctx, ctx.n(800, 20000))
